@@ -135,19 +135,18 @@ def r2(ctx):
 def r3(ctx):
     P = ctx.project
     f = P.func(MAT + "._prepare_factor_evaluation_model_spec")
-    upd = f.locals_named("update_pooled_spec")
+    from .shared import pooling_visitor
+    vis, part, every_leaf = pooling_visitor(P)   # today: the nested update_pooled_spec mapped over model_specs
     ctx.look(3)
-    maps = [c for c in walk_no_nested(f.node) if isinstance(c, ast.Call) and isinstance(c.func, ast.Attribute) and c.func.attr == "_map"
-            and c.args and norm(c.args[0]) == upd.name]
-    ok = len(maps) == 1 and norm(maps[0].func.value) == param_names(f.node)[1] and kwarg(maps[0], "recurse") is None
-    ctx.check(ok, "C07.R3", "the pooling visitor is mapped over every leaf of the structured specs", f.where, ctx.construct(f, text="_map(update_pooled_spec)"),
+    ctx.check(every_leaf, "C07.R3", "the pooling visitor is mapped over every leaf of the structured specs", f.where, ctx.construct(f, text="_map(update_pooled_spec)"),
               "expected model_specs._map(update_pooled_spec) (recursive)")
-    t = norm(upd.node)
-    ok = "factors.update(itertools.chain(*(term.factors for term in model_spec.formula)))" in t
-    ctx.check(ok, "C07.R3", "every factor of every term of every part is pooled", upd.where, ctx.construct(upd, text="factors.update"),
+    ok = any(sym.pm_any([f"factors.update(itertools.chain(*(VAR_t.factors for VAR_t in {part}.formula)))",
+                         f"factors.update(itertools.chain.from_iterable((VAR_t.factors for VAR_t in {part}.formula)))",
+                         f"factors.update((VAR_f for VAR_t in {part}.formula for VAR_f in VAR_t.factors))"], c_) is not None for c_ in ast.walk(vis))
+    ctx.check(ok, "C07.R3", "every factor of every term of every part is pooled", f.where, ctx.construct(f, text="factors.update"),
               "expected factors.update(itertools.chain(*(term.factors for term in model_spec.formula)))")
-    ok = "transform_state.update(model_spec.transform_state)" in t
-    ctx.check(ok, "C07.R3", "the transform state of every part is pooled", upd.where, ctx.construct(upd, text="transform_state.update"),
+    ok = any(sym.pm(f"transform_state.update({part}.transform_state)", c_) is not None for c_ in ast.walk(vis))
+    ctx.check(ok, "C07.R3", "the transform state of every part is pooled", f.where, ctx.construct(f, text="transform_state.update"),
               "expected transform_state.update(model_spec.transform_state)")
     ret = returns_of(f.node)
     ok = bool(ret) and isinstance(ret[0].value, ast.Tuple) and norm(ret[0].value.elts[0]) == "factors"
